@@ -97,7 +97,7 @@ def NcVars.vec (V : NcVars) (n : String) (dflt : List XR) : List XR :=
   | some a => (cleanArr a).data
   | none => dflt
 
-/-- `Netcdf._get_locations` -/
+/-- `Netcdf._get_locations`: absent lat / lon / altitude read 0 (`np.zeros`), absent ids 0,1,2,… -/
 def ncLocations (V : NcVars) : Except String (List Loc) :=
   match V.dim? "location" with
   | none => .error "KeyError: 'location'"
@@ -105,7 +105,7 @@ def ncLocations (V : NcVars) : Except String (List Loc) :=
     let lat := V.vec "lat" (List.replicate n (.fin 0))
     let lon := V.vec "lon" (List.replicate n (.fin 0))
     let id := V.vec "location" ((List.range lat.length).map fun (i : Nat) => XR.fin (i : Rat))
-    let elev := V.vec "altitude" (lat.map fun _ => .nan)
+    let elev := V.vec "altitude" (lat.map fun _ => .fin 0)
     mkLocs lat id lon elev
 
 /-- `Netcdf._get_variable`: the name -/
@@ -225,19 +225,24 @@ def stripDollar (u : List Char) : List Char := u.filter (· ≠ '$')
 
 /-- the file `text2nc.py` writes for an input with the attributes `D`.
 Written: threshold + cdf and quantile + x (when there are any), time (f8, exact), leadtime, location (i4),
-lat, lon, altitude, fcst, obs (always, all-NaN when the input has none), pit and every other field (f4),
-attributes standard_name and units.  NOT written: ensemble members, x0, x1. -/
+ensemble (when the input has members), lat, lon, altitude, fcst, obs (always, all-NaN when the input has
+none), pit and every other field (f4), attributes standard_name, units and — when set — x0, x1 (doubles:
+stored exactly). -/
 def text2nc (R : Rounding) (D : Dataset) : NcVars :=
   let shape3 := [D.times.length, D.leads.length, D.locs.length]
   let nthr := if D.thresholds.isEmpty then none else some D.thresholds.length
   let nqtl := if D.quantiles.isEmpty then none else some D.quantiles.length
+  -- `input.num_members > 0`
+  let ens := D.ensemble.filter fun a => a.dims.getLastD 0 != 0
   { dims := [("time", D.times.length), ("leadtime", D.leads.length), ("location", D.locs.length)]
       ++ optDim "threshold" nthr ++ optDim "quantile" nqtl
+      ++ optDim "ensemble_member" (ens.map fun a => a.dims.getLastD 0)
     vars :=
       optVar "threshold" (nthr.map fun _ => storeVec R.r32 D.thresholds)
       ++ optVar "cdf" (nthr.map fun k => storeArr R.r32 (D.cdf.getD (nanArr (shape3 ++ [k]))))
       ++ optVar "quantile" (nqtl.map fun _ => storeVec R.r32 D.quantiles)
       ++ optVar "x" (nqtl.map fun k => storeArr R.r32 (D.x.getD (nanArr (shape3 ++ [k]))))
+      ++ optVar "ensemble" (ens.map (storeArr R.r32))
       ++ [("time", storeVec id D.times),
           ("leadtime", storeVec R.r32 D.leads),
           ("location", storeVec R.i32 (D.locs.map (·.id))),
@@ -249,6 +254,8 @@ def text2nc (R : Rounding) (D : Dataset) : NcVars :=
       ++ optVar "pit" (D.pit.map (storeArr R.r32))
       ++ D.others.map fun p => (p.1, storeArr R.r32 p.2)
     standardName := some D.var.name
-    units := some (stripDollar D.var.units) }
+    units := some (stripDollar D.var.units)
+    x0 := D.var.x0
+    x1 := D.var.x1 }
 
 end VerifModel
